@@ -155,6 +155,15 @@ func GenXMPRec(r *core.Rng, density int, maxLen int) *XMPRec {
 		}
 	}
 	datep := func(ns, name, key string) {
+		if has() && r.Chance(1, 7) {
+			// a legal XMP date of reduced precision: whatever the library makes of the date itself,
+			// the properties around it must not be affected
+			add(ns, name, r.PickStr("2020-05-17", "2020", "2020-05", "2020-05-17T10:30+02:00", "2020-05-17T10:30", "2020-05-17T10:30Z"))
+			for _, sfx := range []string{".unix", ".off", ".wall"} {
+				e.Any[key+sfx] = true
+			}
+			return
+		}
 		if has() {
 			s, t := randXMPDate(r)
 			add(ns, name, s)
@@ -393,6 +402,25 @@ func randUnknown(r *core.Rng, q string) unknownProp {
 		name = r.PickStr("Version", "ProcessVersion", "WhiteBalance", "Temperature", "Tint", "HasSettings")
 	}
 	val := XText(r, r.Range(1, 40))
+	if r.Chance(1, 5) {
+		// an array of an unsupported property whose items carry properties of supported namespaces
+		// (the ingredients of a composed document describe other files): none of it is the
+		// document's own
+		own := []string{"xmpMM:InstanceID=" + q + "xmp.iid:dddddddd-1111-2222-3333-444444444444" + q, "xmpMM:DocumentID=" + q + "xmp.did:eeeeeeee-1111-2222-3333-444444444444" + q,
+			"dc:format=" + q + "image/png" + q, "xmp:CreateDate=" + q + "2017-03-04T04:06:07" + q, "tiff:Make=" + q + "NIKON CORPORATION" + q, "tiff:Model=" + q + "NIKON D850" + q,
+			"xmp:Rating=" + q + "4" + q, "exif:FNumber=" + q + "71/10" + q, "aux:Lens=" + q + "other lens" + q, "tiff:Orientation=" + q + "8" + q, "xmp:CreatorTool=" + q + "other tool" + q}
+		var as []string
+		for _, i := range r.Perm(len(own))[:r.Range(1, 5)] {
+			as = append(as, own[i])
+		}
+		item := "<rdf:li><rdf:Description " + strings.Join(as, " ") + "/></rdf:li>"
+		if r.Bool() {
+			item = "<rdf:li " + strings.Join(as, " ") + "/>"
+		}
+		prop := r.PickStr("xmpMM:Pantry", "xmpMM:Ingredients", "foo:Parts", "photoshop:DocumentAncestors")
+		cont := r.PickStr("Bag", "Seq")
+		return unknownProp{text: fmt.Sprintf("<%s><rdf:%s>%s</rdf:%s></%s>", prop, cont, strings.Repeat(item, r.Range(1, 3)), cont, prop)}
+	}
 	if r.Bool() {
 		return unknownProp{attr: true, text: fmt.Sprintf("%s:%s=%s%s%s", ns, name, q, val, q)}
 	}
